@@ -83,6 +83,55 @@ pub proof fn lemma_all_mult8_flat(s: Seq<Seq<u8>>)
         lemma_all_mult8_flat(s.drop_last());
     }
 }
+/// flat(s) = flat(first k) ++ s[k] ++ ... : the k-th item occupies [flat(s.take(k)).len(), +s[k].len()) of flat(s)
+pub proof fn lemma_flat_take_step(s: Seq<Seq<u8>>, k: int)
+    requires 0 <= k < s.len(),
+    ensures flat(s.take(k + 1)) == flat(s.take(k)).add(s[k]),
+{
+    assert(s.take(k + 1) =~= s.take(k).push(s[k]));
+    lemma_flat_push(s.take(k), s[k]);
+}
+pub proof fn lemma_flat_prefix(s: Seq<Seq<u8>>, k: int)
+    requires 0 <= k <= s.len(),
+    ensures
+        flat(s.take(k)).len() <= flat(s).len(),
+        flat(s).subrange(0, flat(s.take(k)).len() as int) == flat(s.take(k)),
+    decreases s.len() - k
+{
+    if k == s.len() {
+        assert(s.take(k) =~= s);
+        assert(flat(s).subrange(0, flat(s).len() as int) =~= flat(s));
+    } else {
+        lemma_flat_prefix(s, k + 1);
+        lemma_flat_take_step(s, k);
+        let a = flat(s.take(k));
+        let b = flat(s.take(k + 1));
+        assert(b == a.add(s[k]));
+        assert(flat(s).subrange(0, a.len() as int) =~= b.subrange(0, a.len() as int));
+        assert(b.subrange(0, a.len() as int) =~= a);
+    }
+}
+/// the k-th item sits, byte for byte, at its prefix-sum offset of flat(s)
+pub proof fn lemma_flat_item_at(s: Seq<Seq<u8>>, k: int)
+    requires 0 <= k < s.len(),
+    ensures
+        flat(s.take(k)).len() + s[k].len() <= flat(s).len(),
+        flat(s).subrange(flat(s.take(k)).len() as int, (flat(s.take(k)).len() + s[k].len()) as int) == s[k],
+{
+    lemma_flat_prefix(s, k + 1);
+    lemma_flat_take_step(s, k);
+    let a = flat(s.take(k));
+    let b = flat(s.take(k + 1));
+    assert(flat(s).subrange(a.len() as int, (a.len() + s[k].len()) as int) =~= b.subrange(a.len() as int, (a.len() + s[k].len()) as int));
+    assert(b.subrange(a.len() as int, (a.len() + s[k].len()) as int) =~= s[k]);
+}
+pub proof fn lemma_flat_take_all(s: Seq<Seq<u8>>)
+    ensures flat(s.take(s.len() as int)) == flat(s), flat(s.take(0)).len() == 0,
+{
+    assert(s.take(s.len() as int) =~= s);
+    assert(s.take(0) =~= Seq::<Seq<u8>>::empty());
+    broadcast use lemma_flat_empty;
+}
 } // mod seqfold
 pub use seqfold::*;
 
